@@ -6,7 +6,9 @@ case = {'clocks': [tempo, ...],
 ops: ['sleep', d] | ['sched', clock, delta, task] | ['sched_abs', clock, off,
      task] | ['clear', clock] | ['stop', i] | ['tempo', i, v]
 clock: 'sys' | 'app' | int (TempoClock index)
-task = {'id': n, 'rets': [...], 'do': [ops]}; rets are returned by successive
+task: an id into case['tasks'] = {id: {'rets': [...], 'do': [ops],
+'routine': bool}}; the same id scheduled again uses the same object (the
+clock moves it). rets are returned (yielded, for routines) by successive
 invocations: number (re-schedule), None, 'str' (a non-number), 'raise',
 'stop' (raise StopStream).
 Returns the observed history; the oracle lives in checks/c08.py.
@@ -49,37 +51,67 @@ def run(sim, case):
         seq[0] += 1
         hist.append(kw)
 
-    def make_task(spec, clockref):
+    objs = {}
+
+    def get_task(tid):
+        if tid not in objs:
+            objs[tid] = make_task(tid, case['tasks'][str(tid)])
+        return objs[tid]
+
+    def step(tid, spec, k, clock):
+        """One invocation: record, side ops, pick the return value."""
+        cname = ('sys' if clock is clk.SystemClock else
+                 'app' if clock is clk.AppClock else clocks.index(clock))
+        rec(ev='inv', task=tid, k=k, clock=cname,
+            L=main.current_tt._seconds - l0,
+            beats=(clock.beats if isinstance(clock, clk.TempoClock)
+                   else None))
+        if k == 0:
+            for op in spec.get('do', []):
+                do(op, 'task%d' % tid)
+        rets = spec['rets']
+        r = rets[k] if k < len(rets) else None
+        # the clock re-schedules after the task returns: this record
+        # orders that re-scheduling among the other calls
+        rec(ev='ret', task=tid, k=k, clock=cname)
+        return r
+
+    def make_task(tid, spec):
+        if spec.get('routine'):
+            def gen(inval):
+                k = 0
+                while True:
+                    _, clock = inval
+                    r = step(tid, spec, k, clock)
+                    k += 1
+                    if r == 'raise':
+                        raise TaskError('injected')
+                    if r == 'stop' or r is None:
+                        return
+                    inval = yield r
+            gen.__qualname__ = 'c08.routine%d' % tid
+            return stm.Routine(gen)
         state = {'k': 0}
 
-        def task(*a):
+        def task(fn_self, clock):
             k = state['k']
             state['k'] += 1
-            c = cl(clockref)
-            rec(ev='inv', task=spec['id'], k=k, clock=clockref,
-                L=main.current_tt._seconds - l0,
-                beats=(c.beats if isinstance(c, clk.TempoClock) else None))
-            if k == 0:
-                for op in spec.get('do', []):
-                    do(op, 'task%d' % spec['id'])
-            rets = spec['rets']
-            r = rets[k] if k < len(rets) else None
-            # the clock re-schedules after the task returns: this record
-            # orders that re-scheduling among the other calls
-            rec(ev='ret', task=spec['id'], k=k)
+            r = step(tid, spec, k, clock)
             if r == 'raise':
                 raise TaskError('injected')
             if r == 'stop':
                 raise stm.StopStream()
             return r
-        task.__qualname__ = 'c08.task%d' % spec['id']
-        return task
+        task.__qualname__ = 'c08.task%d' % tid
+        # one awakeable object per task: scheduling it again moves it
+        from sc3.base.functions import Function
+        return Function(task)
 
     def do(op, who):
         k = op[0]
         if k == 'sched' or k == 'sched_abs':
             c = cl(op[1])
-            t = make_task(op[3], op[1])
+            t = get_task(op[3])
             L = main.current_tt._seconds - l0
             base = None
             # records are written right after the call returns: no lock
@@ -88,7 +120,7 @@ def run(sim, case):
                 if k == 'sched':
                     c.sched(op[2], t)
                     rec(ev='sched', who=who, clock=op[1], delta=op[2],
-                        task=op[3]['id'], L=L)
+                        task=op[3], L=L)
                 else:
                     if isinstance(c, clk.TempoClock):
                         when = c.beats + op[2]
@@ -97,10 +129,10 @@ def run(sim, case):
                     c.sched_abs(when, t)
                     rec(ev='sched_abs', who=who, clock=op[1], when=(
                         when if isinstance(c, clk.TempoClock)
-                        else when - l0), task=op[3]['id'], L=L)
+                        else when - l0), task=op[3], L=L)
             except clk.ClockNotRunning:
                 rec(ev='not_running', who=who, clock=op[1],
-                    task=op[3]['id'])
+                    task=op[3])
         elif k == 'clear':
             cl(op[1]).clear()
             rec(ev='clear', who=who, clock=op[1])
